@@ -427,6 +427,9 @@ def _cadence(facts, rep, sb, sbb):
     cnt = None
     for s, vals, live in decs:
         e = expr(du, sb.blocks[s]["term"]["discr"])
+        if e[0] == "call" and e[1] in facts.bodies:
+            from ..mirq import inline_expr
+            e = inline_expr(facts, e)           # `if counters.is_cleanup_due()`: a predicate helper on the counters
         if e[0] == "bin" and e[1] in ("Gt", "Ge", "Lt", "Le", "Eq", "Ne"):
             l, r = e[2], e[3]
             if l[0] == "arg" and r[0] == "const" and l[2]:
